@@ -138,6 +138,9 @@ pub fn is_block_empty(block: &Block) -> bool {
 fn is_expression_simple(expression: &Expression) -> bool {
     match expression {
         Expression::Function(_) => false,
+        // Redundant parentheses are removed when formatting: look through them, so that the
+        // decision is the same as on the formatted output
+        Expression::Parentheses { expression, .. } => is_expression_simple(expression),
         Expression::FunctionCall(function_call) => {
             function_call.suffixes().all(|suffix| match suffix {
                 Suffix::Index(_) => true,
